@@ -1,0 +1,48 @@
+//go:build verif
+
+// Machine-checked contracts for package annotations (read by /verif/govc as text; this file
+// declares nothing and is compiled only under the verif build tag).
+
+package annotations
+
+//@ func EnsureLeadingSlash(path string) (r string)
+//@   pure
+//@   ensures r == spec.Lead(path)
+
+//@ func BuildHTTPPath(servicePath string, methodPath string) (r string)
+//@   pure
+//@   ensures r == spec.JoinPath(servicePath, methodPath)
+//@   ensures hasPrefix(r, "/")
+
+//@ func LowerFirst(s string) (r string)
+//@   pure
+//@   ensures s == "" ==> r == ""
+//@   ensures s != "" ==> r == lower(substr(s, 0, 1)) + substr(s, 1, len(s) - 1)
+//@   ensures len(r) == len(s)
+
+//@ func HTTPMethodToString(m sebufhttp.HttpMethod) (r string)
+//@   pure
+//@   ensures m == sebufhttp.HttpMethod_HTTP_METHOD_GET ==> r == "GET"
+//@   ensures m == sebufhttp.HttpMethod_HTTP_METHOD_PUT ==> r == "PUT"
+//@   ensures m == sebufhttp.HttpMethod_HTTP_METHOD_DELETE ==> r == "DELETE"
+//@   ensures m == sebufhttp.HttpMethod_HTTP_METHOD_PATCH ==> r == "PATCH"
+//@   ensures m != sebufhttp.HttpMethod_HTTP_METHOD_GET && m != sebufhttp.HttpMethod_HTTP_METHOD_PUT && m != sebufhttp.HttpMethod_HTTP_METHOD_DELETE && m != sebufhttp.HttpMethod_HTTP_METHOD_PATCH ==> r == "POST"
+
+//@ func HTTPMethodToLower(m sebufhttp.HttpMethod) (r string)
+//@   pure
+//@   ensures r == lower(HTTPMethodToString(m))
+
+//@ func ExtractPathParams(path string) (r []string)
+//@   pure
+//@   assume-contract
+
+//@ func GetMethodHTTPConfig(method *protogen.Method) (r *HTTPConfig)
+//@   pure
+//@   ensures (r == nil) <==> !spec.hasConfig(method)
+//@   ensures r != nil ==> r.Path == spec.cfgPath(method)
+//@   ensures r != nil ==> r.Method == HTTPMethodToString(spec.cfgVerb(method))
+//@   ensures r != nil ==> r.PathParams == ExtractPathParams(spec.cfgPath(method))
+
+//@ func GetServiceBasePath(service *protogen.Service) (r string)
+//@   pure
+//@   ensures r == spec.basePath(service)
